@@ -39,6 +39,9 @@ TrAddOrUpdateEdge == IsEv("add_or_update_edge") /\ Is("matrix") /\ MxUpdateEdge(
 TrLoad == IsEv("load") /\ Is("map") /\ MapLoad(Ev.nodes, Ev.edges) /\ Bind
 TrListAddNodeFrom == IsEv("add_node_from_edges") /\ Is("list") /\ ListAddNodeFrom(Ev.edges) /\ Bind
 TrListSetEdgeWeight == IsEv("list_set_edge_weight") /\ Is("list") /\ ListSetEdgeWeight(Ev.a, Ev.rank, Ev.w) /\ Bind
+TrMapBuildAddEdge == IsEv("build_add_edge") /\ Is("map") /\ MapBuildAddEdge(Ev.a, Ev.b, Ev.w) /\ Bind
+TrMapBuildUpdateEdge == IsEv("build_update_edge") /\ Is("map") /\ MapBuildUpdateEdge(Ev.a, Ev.b, Ev.w) /\ Bind
+TrMapFromElements == IsEv("from_elements") /\ Is("map") /\ MapFromElements(Ev.nodes, Ev.edges) /\ Bind
 TrNoEffect == IsEv("noeffect") /\ NoEffect /\ Bind
 \* the IF makes TLC evaluate ObsOK as a state predicate (otherwise its inner disjunctions are expanded
 \* as alternative ways to build the successor state)
@@ -46,7 +49,7 @@ TrObs == IsEv("obs") /\ (IF ObsOK(Ev) THEN UNCHANGED svars ELSE FALSE)
 
 TraceNext == \/ TrReset \/ TrAddNode \/ TrRemoveNode \/ TrTryAddEdge \/ TrAddEdge \/ TrUpdateEdge \/ TrTryUpdateEdge
              \/ TrRemoveEdge \/ TrTryRemoveEdge \/ TrSetEdgeWeight \/ TrSetNodeWeight \/ TrClearEdges \/ TrClear
-             \/ TrFromSorted \/ TrExtend \/ TrAddOrUpdateEdge \/ TrLoad \/ TrListAddNodeFrom \/ TrListSetEdgeWeight \/ TrNoEffect \/ TrObs
+             \/ TrFromSorted \/ TrExtend \/ TrAddOrUpdateEdge \/ TrLoad \/ TrListAddNodeFrom \/ TrListSetEdgeWeight \/ TrMapBuildAddEdge \/ TrMapBuildUpdateEdge \/ TrMapFromElements \/ TrNoEffect \/ TrObs
 TraceSpec == TraceInit /\ [][TraceNext]_tvars
 TraceInv == WF /\ l # DbgAt
 
